@@ -135,6 +135,24 @@ func c01Worker(e *Env) *res.Result {
 			_ = ci
 			oc := c01Run(chk, dir, spec, cfg)
 			r.Evaluations++
+			// a sample goes through the real CLI as well: its exit status must agree with
+			// the in-process result (0 <=> nil)
+			if ci == 0 && (h>>8)%20 == 0 && oc.Panic == "" {
+				if cli, cerr := cliBinaryShared(e); cerr == nil {
+					cliOut := filepath.Join(dir, "cliout")
+					os.RemoveAll(cliOut)
+					os.MkdirAll(cliOut, 0o755)
+					cmd := exec.Command(cli, cfg.CLIArgs(filepath.Join(dir, "work", cfg.SpecName()), filepath.Join(dir, "work", ".goag.yaml"), cliOut)...)
+					cmd.Dir = filepath.Join(dir, "work")
+					cliErr := cmd.Run()
+					r.Label("cli-sample")
+					if (cliErr != nil) != oc.Rejected {
+						r.Fail(res.Failure{Property: "C01", Kind: "cli-disagrees:" + row.ID, Clause: "cli-exit-status",
+							Detail: fmt.Sprintf("row %s config %s: in-process error=%v (%s) but CLI failure=%v", row.ID, cfgString(cfg), oc.Rejected, oc.ErrText, cliErr != nil),
+							Replay: map[string]any{"openapi.json": string(spec), "config.json": cfgString(cfg), "row": row.ID}})
+					}
+				}
+			}
 			if row.Negative {
 				negRows++
 			}
